@@ -1,12 +1,35 @@
 import IbModel.Model.Assertions
+import IbModel.Proofs.Assertions
 /-!
 # C20 — the shipped test assertions accept exactly equal collections
 
-Property theorems (kept apart from helper lemmas). `true` = the assertion returns, `false` = it panics.
+Property theorems (helper lemmas live in `Proofs/Assertions.lean`). `true` = the assertion returns,
+`false` = it panics. Multiset equality of lists is `List.Perm`.
+
+* ordered      `assertEqual_iff`      : passes ↔ `a = b`                                  (all inputs)
+* unordered    `assertUnordered_iff`  : passes ↔ `a.Perm b`                               (all inputs)
+* key/value    `assertKv_iff`         : passes ↔ `a.Perm b`       (all inputs, repeated keys included;
+                                        any total, transitive, antisymmetric key order)
+* grouped      `assertGrouped_iff`    : passes ↔ same keys ∧ per key the same multiset of values
+                                        (grouped data = keys pairwise distinct on a side)
+               `assertGrouped_sound_any` / `assertGrouped_flatten`: what acceptance means for inputs
+                                        with a repeated key; `assertGrouped_repeated_key_*` witnesses.
 -/
 namespace IB.Assertions
 
 variable {α : Type} [DecidableEq α]
+
+/-- the key order used in the concrete witnesses (`Ord` on integers) -/
+abbrev leNat (a b : Nat) : Bool := decide (a ≤ b)
+
+/-- non-vacuity of the order hypotheses used below: `≤` on `Nat` is transitive, total, antisymmetric -/
+theorem leNat_order :
+    (∀ a b c, leNat a b → leNat b c → leNat a c) ∧ (∀ a b, leNat a b || leNat b a) ∧
+      (∀ a b, leNat a b → leNat b a → a = b) := by
+  refine ⟨?_, ?_, ?_⟩
+  · intro a b c h1 h2; simp only [leNat, decide_eq_true_eq] at *; omega
+  · intro a b; simp only [leNat, Bool.or_eq_true, decide_eq_true_eq]; omega
+  · intro a b h1 h2; simp only [leNat, decide_eq_true_eq] at *; omega
 
 /-! ## ordered assertion: passes iff the sequences are equal -/
 
@@ -31,23 +54,6 @@ theorem assertEqual_iff (a b : List α) : assertEqual a b = true ↔ a = b := by
     exact (zip_all_eq_of_length_eq a a rfl).mpr rfl
 
 /-! ## unordered assertion: passes iff the collections are equal as multisets -/
-
-theorem countsEq_iff (a b : List α) : countsEq a b = true ↔ ∀ x, a.count x = b.count x := by
-  unfold countsEq
-  simp only [List.all_eq_true, List.mem_append, beq_iff_eq]
-  constructor
-  · intro h x
-    by_cases hx : x ∈ a ∨ x ∈ b
-    · exact h x hx
-    · have ha : x ∉ a := fun h' => hx (Or.inl h')
-      have hb : x ∉ b := fun h' => hx (Or.inr h')
-      rw [List.count_eq_zero_of_not_mem ha, List.count_eq_zero_of_not_mem hb]
-  · intro h x _; exact h x
-
-theorem setEq_of_perm {a b : List α} (h : a.Perm b) : setEq a b = true := by
-  unfold setEq subsetB
-  simp only [Bool.and_eq_true, List.all_eq_true, List.contains_iff_mem]
-  exact ⟨fun x hx => h.mem_iff.mp hx, fun x hx => h.mem_iff.mpr hx⟩
 
 /-- C20 (unordered): the current `assert_collections_unordered_equal` returns **iff** the two
     collections are equal as multisets. -/
@@ -86,6 +92,53 @@ theorem legacy_assertUnordered_unsound :
 
 variable {κ : Type} [DecidableEq κ]
 
+/-- C20 (kv, soundness — no assumption on the key order, no assumption on the inputs): whatever
+    `assert_kv_collections_equal` accepts is multiset-equal. -/
+theorem assertKv_sound (le : κ → κ → Bool) (a b : List (κ × α)) (h : assertKv le a b = true) :
+    a.Perm b := by
+  simp only [assertKv, Bool.and_eq_true, beq_iff_eq] at h
+  have hs := walkRuns_sound _ _ _ h.1 h.2
+  exact (sortByKey_perm le a).symm.trans (hs.trans (sortByKey_perm le b))
+
+/-- C20 (kv, completeness — all inputs, repeated keys included): multiset-equal collections are
+    accepted, for any total, transitive, antisymmetric key order. -/
+theorem assertKv_complete (le : κ → κ → Bool)
+    (trans : ∀ a b c, le a b → le b c → le a c) (total : ∀ a b, le a b || le b a)
+    (antisymm : ∀ a b, le a b → le b a → a = b)
+    (a b : List (κ × α)) (h : a.Perm b) : assertKv le a b = true := by
+  have hp : (sortByKey le a).Perm (sortByKey le b) :=
+    (sortByKey_perm le a).trans (h.trans (sortByKey_perm le b).symm)
+  simp only [assertKv, Bool.and_eq_true, beq_iff_eq]
+  exact ⟨hp.length_eq, walkRuns_complete le total antisymm _ _ _ (Nat.le_refl _)
+    (sortByKey_sorted le trans total a) (sortByKey_sorted le trans total b) hp⟩
+
+/-- **C20 (kv)**: the current `assert_kv_collections_equal` returns **iff** the two collections are
+    equal as multisets of rows — for ALL inputs. -/
+theorem assertKv_iff (le : κ → κ → Bool)
+    (trans : ∀ a b c, le a b → le b c → le a c) (total : ∀ a b, le a b || le b a)
+    (antisymm : ∀ a b, le a b → le b a → a = b)
+    (a b : List (κ × α)) : assertKv le a b = true ↔ a.Perm b :=
+  ⟨assertKv_sound le a b, assertKv_complete le trans total antisymm a b⟩
+
+/-- In particular it never accepts collections in which some row occurs a different number of times. -/
+theorem assertKv_rejects_multiplicity (le : κ → κ → Bool) (a b : List (κ × α)) (x : κ × α)
+    (h : a.count x ≠ b.count x) : assertKv le a b = false := by
+  cases hc : assertKv le a b with
+  | false => rfl
+  | true => exact absurd (List.perm_iff_count.mp (assertKv_sound le a b hc) x) h
+
+/-- witness: the input that the previous code rejected is accepted now -/
+theorem assertKv_accepts_repeated_key :
+    assertKv leNat [(1, 0), (1, 1)] [(1, 1), (1, 0)] = true :=
+  assertKv_complete leNat leNat_order.1 leNat_order.2.1 leNat_order.2.2 _ _ (List.Perm.swap _ _ _)
+
+/-- witness: a repeated key with different value multiplicities is still rejected -/
+theorem assertKv_rejects_witness :
+    assertKv leNat [(1, 0), (1, 0), (1, 1)] [(1, 0), (1, 1), (1, 1)] = false :=
+  assertKv_rejects_multiplicity leNat _ _ (1, 0) (by decide)
+
+/-! ### the code before the `fix:` commit (position-wise comparison after the stable sort) -/
+
 theorem zip_all_pair_eq : ∀ (a b : List (κ × α)), a.length = b.length →
     ((a.zip b).all (fun p => p.1.1 == p.2.1 && p.1.2 == p.2.2) = true ↔ a = b)
   | [], [], _ => by simp
@@ -96,98 +149,227 @@ theorem zip_all_pair_eq : ∀ (a b : List (κ × α)), a.length = b.length →
     simp only [List.zip_cons_cons, List.all_cons, Bool.and_eq_true, beq_iff_eq, ih, List.cons.injEq,
       Prod.mk.injEq]
 
-theorem assertKv_iff_sorted_eq (le : κ → κ → Bool) (a b : List (κ × α)) :
-    assertKv le a b = true ↔ sortByKey le a = sortByKey le b := by
-  unfold assertKv
+/-- exact characterisation of the previous code: it compared the two *stably key-sorted* sequences -/
+theorem legacy_assertKv_iff_sorted_eq (le : κ → κ → Bool) (a b : List (κ × α)) :
+    Legacy.assertKv le a b = true ↔ sortByKey le a = sortByKey le b := by
+  unfold Legacy.assertKv
   simp only [Bool.and_eq_true, beq_iff_eq]
   constructor
   · rintro ⟨hl, h⟩; exact (zip_all_pair_eq _ _ hl).mp h
   · intro h; rw [h]; exact ⟨rfl, (zip_all_pair_eq _ _ rfl).mpr rfl⟩
 
-/-- C20 (kv, soundness): whatever `assert_kv_collections_equal` accepts is multiset-equal —
-    it never accepts collections that differ in how often a row occurs. -/
-theorem assertKv_sound (le : κ → κ → Bool) (a b : List (κ × α)) (h : assertKv le a b = true) :
-    a.Perm b := by
-  have hs := (assertKv_iff_sorted_eq le a b).mp h
-  have ha : (sortByKey le a).Perm a := List.mergeSort_perm _ _
-  have hb : (sortByKey le b).Perm b := List.mergeSort_perm _ _
-  exact ha.symm.trans (hs ▸ hb)
+/-- the previous code was sound … -/
+theorem legacy_assertKv_sound (le : κ → κ → Bool) (a b : List (κ × α))
+    (h : Legacy.assertKv le a b = true) : a.Perm b := by
+  have hs := (legacy_assertKv_iff_sorted_eq le a b).mp h
+  exact (sortByKey_perm le a).symm.trans (hs ▸ sortByKey_perm le b)
 
-/-- C20 (kv, completeness on distinct keys): multiset-equal collections whose keys are pairwise
-    distinct are accepted, for any total, transitive, antisymmetric key order. With a *repeated* key
-    the stable sort keeps the rows of that key in input order, so the assertion can reject two
-    multiset-equal inputs (recorded as a known finding, see `kv_rejects_repeated_key`). -/
-theorem assertKv_complete (le : κ → κ → Bool)
-    (trans : ∀ a b c, le a b → le b c → le a c) (total : ∀ a b, le a b || le b a)
-    (antisymm : ∀ a b, le a b → le b a → a = b)
-    (a b : List (κ × α)) (hnd : (a.map Prod.fst).Nodup) (h : a.Perm b) :
-    assertKv le a b = true := by
-  rw [assertKv_iff_sorted_eq]
-  have ha : (sortByKey le a).Perm a := List.mergeSort_perm _ _
-  have hb : (sortByKey le b).Perm b := List.mergeSort_perm _ _
-  have hperm : (sortByKey le a).Perm (sortByKey le b) := ha.trans (h.trans hb.symm)
-  have hsa : (sortByKey le a).Pairwise (fun x y => le x.1 y.1) :=
-    List.pairwise_mergeSort (fun x y z => trans x.1 y.1 z.1) (fun x y => total x.1 y.1) a
-  have hsb : (sortByKey le b).Pairwise (fun x y => le x.1 y.1) :=
-    List.pairwise_mergeSort (fun x y z => trans x.1 y.1 z.1) (fun x y => total x.1 y.1) b
-  refine List.Perm.eq_of_pairwise ?_ hsa hsb hperm
-  intro x y hx hy hxy hyx
-  have hk : x.1 = y.1 := antisymm _ _ hxy hyx
-  have hxa : x ∈ a := ha.mem_iff.mp hx
-  have hya : y ∈ a := h.mem_iff.mpr (hb.mem_iff.mp hy)
-  -- distinct keys: two rows of `a` with the same key are the same row
-  have : ∀ (l : List (κ × α)), (l.map Prod.fst).Nodup → x ∈ l → y ∈ l → x = y := by
-    intro l
-    induction l with
-    | nil => intro _ hx; simp at hx
-    | cons z l ih =>
-      intro hnd hx hy
-      simp only [List.map_cons, List.nodup_cons, List.mem_map, not_exists, not_and] at hnd
-      simp only [List.mem_cons] at hx hy
-      rcases hx with rfl | hx <;> rcases hy with rfl | hy
-      · rfl
-      · exact absurd hk.symm (hnd.1 y hy)
-      · exact absurd hk (hnd.1 x hx)
-      · exact ih hnd.2 hx hy
-  exact this a hnd hxa hya
-
-theorem sortByKey_of_sorted {β : Type} (le : κ → κ → Bool) (l : List (κ × β))
-    (h : l.Pairwise (fun x y => le x.1 y.1 = true)) : sortByKey le l = l :=
-  List.mergeSort_of_pairwise h
-
-theorem assertKv_iff_false_of_sorted (le : κ → κ → Bool) (a b : List (κ × α))
-    (ha : a.Pairwise (fun x y => le x.1 y.1 = true)) (hb : b.Pairwise (fun x y => le x.1 y.1 = true)) :
-    assertKv le a b = false ↔ a ≠ b := by
-  have := assertKv_iff_sorted_eq le a b
-  rw [sortByKey_of_sorted le a ha, sortByKey_of_sorted le b hb] at this
-  cases h : assertKv le a b <;> simp_all
-
-/-- The repeated-key strictness, on a concrete witness (replayed on the real code: it panics). -/
-theorem kv_rejects_repeated_key :
-    assertKv (fun a b : Nat => decide (a ≤ b)) [(1, 0), (1, 1)] [(1, 1), (1, 0)] = false ∧
+/-- … but not complete: with a repeated key the stable sort keeps that key's rows in input order,
+    so two multiset-equal inputs were rejected (replayed on the real code before the fix: it panicked). -/
+theorem legacy_kv_rejects_repeated_key :
+    Legacy.assertKv leNat [(1, 0), (1, 1)] [(1, 1), (1, 0)] = false ∧
       ([(1, 0), (1, 1)] : List (Nat × Nat)).Perm [(1, 1), (1, 0)] := by
   constructor
-  · rw [assertKv_iff_false_of_sorted _ _ _ (by decide) (by decide)]; decide
+  · have := legacy_assertKv_iff_sorted_eq leNat [(1, 0), (1, 1)] [(1, 1), (1, 0)]
+    rw [sortByKey_of_sorted leNat _ (by decide), sortByKey_of_sorted leNat _ (by decide)] at this
+    cases h : Legacy.assertKv leNat [(1, 0), (1, 1)] [(1, 1), (1, 0)] with
+    | false => rfl
+    | true => exact absurd (this.mp h) (by decide)
   · exact List.Perm.swap _ _ _
 
 /-! ## grouped assertion (`assert_grouped_kv_equal`) -/
 
+/-- what the code computes, for ALL inputs: after the stable sort by key the two sides have the same
+    length and, position by position, the same key and the same multiset of values. -/
+theorem assertGrouped_iff_sorted (le : κ → κ → Bool) (a b : List (κ × List α)) :
+    assertGrouped le a b = true ↔
+      ((sortByKey le a).length = (sortByKey le b).length ∧
+        ∀ p ∈ (sortByKey le a).zip (sortByKey le b), p.1.1 = p.2.1 ∧ p.1.2.Perm p.2.2) := by
+  simp only [assertGrouped]
+  rw [Bool.and_eq_true, beq_iff_eq, List.all_eq_true]
+  constructor
+  · rintro ⟨hl, h⟩
+    exact ⟨hl, fun p hp => (groupTest_iff p.1 p.2).mp (h p hp)⟩
+  · rintro ⟨hl, h⟩
+    exact ⟨hl, fun p hp => (groupTest_iff p.1 p.2).mpr (h p hp)⟩
+
+/-- C20 (grouped, soundness for the keys — all inputs): accepted collections have the same multiset
+    of keys. -/
+theorem assertGrouped_sound_keys (le : κ → κ → Bool) (a b : List (κ × List α))
+    (h : assertGrouped le a b = true) : (a.map Prod.fst).Perm (b.map Prod.fst) := by
+  obtain ⟨hl, hz⟩ := (assertGrouped_iff_sorted le a b).mp h
+  have hk : (sortByKey le a).map Prod.fst = (sortByKey le b).map Prod.fst :=
+    (map_fst_eq_iff_zip _ _).mpr ⟨hl, fun p hp => (hz p hp).1⟩
+  have h1 := (sortByKey_perm le a).map Prod.fst
+  have h2 := (sortByKey_perm le b).map Prod.fst
+  exact h1.symm.trans (hk ▸ h2)
+
+/-- C20 (grouped, soundness for the values): if the keys of ONE side are pairwise distinct, every
+    key's two groups are equal as multisets. -/
+theorem assertGrouped_sound_values (le : κ → κ → Bool) (a b : List (κ × List α))
+    (hnd : (a.map Prod.fst).Nodup ∨ (b.map Prod.fst).Nodup)
+    (h : assertGrouped le a b = true) :
+    ∀ k vs ws, (k, vs) ∈ a → (k, ws) ∈ b → vs.Perm ws := by
+  obtain ⟨hl, hz⟩ := (assertGrouped_iff_sorted le a b).mp h
+  intro k vs ws hva hwb
+  have hpa := sortByKey_perm le a
+  have hpb := sortByKey_perm le b
+  rcases hnd with hnd | hnd
+  · -- the partner of `(k, ws)` on the `a` side has key `k`, so it is `(k, vs)`
+    obtain ⟨r, hr⟩ := exists_zip_of_mem_right _ _ hl (k, ws) (hpb.mem_iff.mpr hwb)
+    have hra : r ∈ a := hpa.mem_iff.mp (List.of_mem_zip hr).1
+    have hrel := hz _ hr
+    have : r = (k, vs) := eq_of_mem_of_nodup_keys a hnd r hra (k, vs) hva hrel.1
+    subst this; exact hrel.2
+  · obtain ⟨s, hs⟩ := exists_zip_of_mem_left _ _ hl (k, vs) (hpa.mem_iff.mpr hva)
+    have hsb : s ∈ b := hpb.mem_iff.mp (List.of_mem_zip hs).2
+    have hrel := hz _ hs
+    have : s = (k, ws) := eq_of_mem_of_nodup_keys b hnd s hsb (k, ws) hwb hrel.1.symm
+    subst this; exact hrel.2
+
+/-- C20 (grouped, completeness — all inputs, no distinctness needed): the same multiset of keys and,
+    per key, the same multiset of values ⇒ accepted (total, transitive, antisymmetric key order). -/
+theorem assertGrouped_complete (le : κ → κ → Bool)
+    (trans : ∀ a b c, le a b → le b c → le a c) (total : ∀ a b, le a b || le b a)
+    (antisymm : ∀ a b, le a b → le b a → a = b) (a b : List (κ × List α))
+    (hk : (a.map Prod.fst).Perm (b.map Prod.fst))
+    (hv : ∀ k vs ws, (k, vs) ∈ a → (k, ws) ∈ b → vs.Perm ws) :
+    assertGrouped le a b = true := by
+  rw [assertGrouped_iff_sorted]
+  have hpa := sortByKey_perm le a
+  have hpb := sortByKey_perm le b
+  have hkeys : (sortByKey le a).map Prod.fst = (sortByKey le b).map Prod.fst :=
+    keys_eq_of_sorted_of_perm le antisymm _ _ (sortByKey_sorted le trans total a)
+      (sortByKey_sorted le trans total b)
+      ((hpa.map Prod.fst).trans (hk.trans (hpb.map Prod.fst).symm))
+  obtain ⟨hl, hz⟩ := (map_fst_eq_iff_zip _ _).mp hkeys
+  refine ⟨hl, fun p hp => ⟨hz p hp, ?_⟩⟩
+  have hm := List.of_mem_zip hp
+  have h1 : (p.1.1, p.1.2) ∈ a := hpa.mem_iff.mp hm.1
+  have h2 : (p.1.1, p.2.2) ∈ b := by
+    have : p.2 ∈ b := hpb.mem_iff.mp hm.2
+    rw [hz p hp]; exact this
+  exact hv _ _ _ h1 h2
+
+/-- **C20 (grouped)**: for grouped data (keys pairwise distinct on both sides — one side suffices,
+    see `assertGrouped_sound_values`) and any total, transitive, antisymmetric key order, the current
+    `assert_grouped_kv_equal` returns **iff** both sides have the same keys and, per key, the same
+    multiset of values. -/
+theorem assertGrouped_iff (le : κ → κ → Bool)
+    (trans : ∀ a b c, le a b → le b c → le a c) (total : ∀ a b, le a b || le b a)
+    (antisymm : ∀ a b, le a b → le b a → a = b) (a b : List (κ × List α))
+    (hna : (a.map Prod.fst).Nodup) (_hnb : (b.map Prod.fst).Nodup) :
+    assertGrouped le a b = true ↔
+      ((a.map Prod.fst).Perm (b.map Prod.fst) ∧
+        ∀ k vs ws, (k, vs) ∈ a → (k, ws) ∈ b → vs.Perm ws) :=
+  ⟨fun h => ⟨assertGrouped_sound_keys le a b h, assertGrouped_sound_values le a b (Or.inl hna) h⟩,
+   fun h => assertGrouped_complete le trans total antisymm a b h.1 h.2⟩
+
+/-- In particular it never accepts grouped collections in which a key's group differs only in how
+    often a value occurs. -/
+theorem assertGrouped_rejects_multiplicity (le : κ → κ → Bool) (a b : List (κ × List α))
+    (hnd : (a.map Prod.fst).Nodup ∨ (b.map Prod.fst).Nodup) (k : κ) (vs ws : List α)
+    (ha : (k, vs) ∈ a) (hb : (k, ws) ∈ b) (x : α) (hc : vs.count x ≠ ws.count x) :
+    assertGrouped le a b = false := by
+  cases h : assertGrouped le a b with
+  | false => rfl
+  | true =>
+    exact absurd (List.perm_iff_count.mp (assertGrouped_sound_values le a b hnd h k vs ws ha hb) x) hc
+
+/-! ### inputs with a repeated key (not "grouped data"; outside the property, stated for completeness) -/
+
+/-- Soundness for ANY input (repeated keys allowed, any `le`): acceptance means that the rows of the
+    two sides can be arranged so that they agree position by position in key and value multiset. -/
+theorem assertGrouped_sound_any (le : κ → κ → Bool) (a b : List (κ × List α))
+    (h : assertGrouped le a b = true) :
+    ∃ a' b' : List (κ × List α), a'.Perm a ∧ b'.Perm b ∧ a'.length = b'.length ∧
+      ∀ p ∈ a'.zip b', p.1.1 = p.2.1 ∧ p.1.2.Perm p.2.2 :=
+  ⟨sortByKey le a, sortByKey le b, sortByKey_perm le a, sortByKey_perm le b,
+    (assertGrouped_iff_sorted le a b).mp h⟩
+
+/-- … hence, for ANY input, the key/value rows the two sides stand for are equal as multisets: the
+    grouped assertion never accepts two collections that differ in how often a `(key, value)` occurs. -/
+theorem assertGrouped_flatten (le : κ → κ → Bool) (a b : List (κ × List α))
+    (h : assertGrouped le a b = true) : (flattenGroups a).Perm (flattenGroups b) := by
+  obtain ⟨hl, hz⟩ := (assertGrouped_iff_sorted le a b).mp h
+  have h1 : (flattenGroups (sortByKey le a)).Perm (flattenGroups a) :=
+    (sortByKey_perm le a).flatMap_right _
+  have h2 : (flattenGroups (sortByKey le b)).Perm (flattenGroups b) :=
+    (sortByKey_perm le b).flatMap_right _
+  exact h1.symm.trans ((flattenGroups_perm_of_zip _ _ hl hz).trans h2)
+
+/-- With a repeated key the *completeness* direction fails: the two sides below are the same multiset
+    of groups, but the stable sort leaves the two groups of key 0 in input order and they are
+    compared position by position. -/
+theorem assertGrouped_repeated_key_rejects :
+    assertGrouped leNat [(0, [1]), (0, [2])] [(0, [2]), (0, [1])] = false ∧
+      ([(0, [1]), (0, [2])] : List (Nat × List Nat)).Perm [(0, [2]), (0, [1])] := by
+  constructor
+  · simp only [assertGrouped]
+    rw [sortByKey_of_sorted leNat _ (by decide), sortByKey_of_sorted leNat _ (by decide)]
+    decide
+  · exact List.Perm.swap _ _ _
+
+/-- With a repeated key the right-hand side of `assertGrouped_iff` is no longer implied by acceptance
+    (it is not the right specification there: it would relate *different* groups of the same key):
+    the assertion accepts `a` against itself, as it must. -/
+theorem assertGrouped_repeated_key_spec :
+    assertGrouped leNat [(0, [1]), (0, [2])] [(0, [1]), (0, [2])] = true ∧
+      ¬ (∀ k vs ws, (k, vs) ∈ ([(0, [1]), (0, [2])] : List (Nat × List Nat)) →
+          (k, ws) ∈ ([(0, [1]), (0, [2])] : List (Nat × List Nat)) → vs.Perm ws) := by
+  constructor
+  · simp only [assertGrouped]
+    rw [sortByKey_of_sorted leNat _ (by decide)]
+    decide
+  · intro h
+    have := h 0 [1] [2] (by simp) (by simp)
+    simp at this
+
+/-! ### the code before the first `fix:` commit (values compared as sets) -/
+
 /-- pinned-commit version accepted groups that differ only in multiplicities -/
 theorem legacy_assertGrouped_unsound :
-    Legacy.assertGrouped (fun a b : Nat => decide (a ≤ b)) [(0, [1, 1])] [(0, [1])] = true := by
+    Legacy.assertGrouped leNat [(0, [1, 1])] [(0, [1])] = true := by
   simp [Legacy.assertGrouped, sortByKey, setEq, subsetB]
 
-/-- the current version rejects that witness -/
+/-- the current version rejects those witnesses (instances of `assertGrouped_rejects_multiplicity`) -/
 theorem assertGrouped_rejects_witness :
-    assertGrouped (fun a b : Nat => decide (a ≤ b)) [(0, [1, 1])] [(0, [1])] = false ∧
-    assertGrouped (fun a b : Nat => decide (a ≤ b)) [(0, [1, 1, 2])] [(0, [1, 2, 2])] = false := by
-  simp [assertGrouped, sortByKey, setEq, subsetB, countsEq]
+    assertGrouped leNat [(0, [1, 1])] [(0, [1])] = false ∧
+    assertGrouped leNat [(0, [1, 1, 2])] [(0, [1, 2, 2])] = false :=
+  ⟨assertGrouped_rejects_multiplicity leNat _ _ (Or.inl (by decide)) 0 [1, 1] [1] (by simp) (by simp) 1
+      (by decide),
+   assertGrouped_rejects_multiplicity leNat _ _ (Or.inl (by decide)) 0 [1, 1, 2] [1, 2, 2] (by simp)
+      (by simp) 1 (by decide)⟩
 
-/-! non-vacuity: the hypotheses of `assertKv_complete` are met by a concrete non-trivial input -/
-example : (([(2, 5), (1, 7)] : List (Nat × Nat)).map Prod.fst).Nodup ∧
-    ([(2, 5), (1, 7)] : List (Nat × Nat)).Perm [(1, 7), (2, 5)] := by
-  constructor
-  · decide
+/-! ## non-vacuity: concrete non-trivial inputs satisfy the hypotheses and both sides of the iffs -/
+
+/-- `assertKv_iff`: repeated key, rows of that key in a different relative order (true ↔ true) -/
+example : assertKv leNat [(2, 5), (1, 7), (1, 8)] [(1, 8), (1, 7), (2, 5)] = true ∧
+    ([(2, 5), (1, 7), (1, 8)] : List (Nat × Nat)).Perm [(1, 8), (1, 7), (2, 5)] := by
+  have hp : ([(2, 5), (1, 7), (1, 8)] : List (Nat × Nat)).Perm [(1, 8), (1, 7), (2, 5)] :=
+    List.perm_iff_count.mpr (by
+      intro x
+      simp only [List.count_cons, List.count_nil]
+      by_cases h1 : (2, 5) = x <;> by_cases h2 : (1, 7) = x <;> by_cases h3 : (1, 8) = x <;>
+        simp [h1, h2, h3])
+  exact ⟨(assertKv_iff leNat leNat_order.1 leNat_order.2.1 leNat_order.2.2 _ _).mpr hp, hp⟩
+
+/-- `assertGrouped_iff`: hypotheses (distinct keys on both sides) and the right-hand side hold for
+    a two-key input whose groups are permuted and listed in a different key order. -/
+example :
+    let a : List (Nat × List Nat) := [(2, [5, 6, 5]), (1, [7])]
+    let b : List (Nat × List Nat) := [(1, [7]), (2, [6, 5, 5])]
+    (a.map Prod.fst).Nodup ∧ (b.map Prod.fst).Nodup ∧ assertGrouped leNat a b = true := by
+  intro a b
+  refine ⟨by decide, by decide, ?_⟩
+  apply assertGrouped_complete leNat leNat_order.1 leNat_order.2.1 leNat_order.2.2
   · exact List.Perm.swap _ _ _
+  · intro k vs ws ha hb
+    simp only [a, b, List.mem_cons, Prod.mk.injEq, List.mem_nil_iff, or_false] at ha hb
+    rcases ha with ⟨rfl, rfl⟩ | ⟨rfl, rfl⟩ <;> rcases hb with ⟨h, rfl⟩ | ⟨h, rfl⟩
+    · omega
+    · exact List.Perm.swap 6 5 [5]
+    · exact List.Perm.refl _
+    · omega
 
 end IB.Assertions
